@@ -23,7 +23,7 @@ CHUNK = {"quick": 16, "thorough": 64}
 PROBES = ["keylen_2", "keylen_3_15", "keylen_16_100", "keylen_101_255", "keylen_256", "periodic_key", "opts_1", "opts_2",
           "opts_3", "opts_4", "container_xorpe", "area_at_0", "stray_marker_before_area", "fault_in_settings", "fault_in_padding", "fault_in_checksum",
           "fault_in_marker", "fault_in_guard_settings", "fault_checksum_delta", "fault_checksum_zero", "fault_checksum_absent", "rejected_under_fault",
-          "recovered_under_fault", "metadata_only", "entry_iter", "marker_at_block_boundary", "history_genuine_then_corrupted", "history_corrupted_then_genuine"]
+          "recovered_under_fault", "metadata_only", "entry_iter", "marker_at_block_boundary", "history_genuine_then_corrupted", "history_corrupted_then_genuine", "checksum_option_not_last", "checksum_above_1_5M"]
 RULE = ("seeded plans: settings list (1-40 records, zero-padded to 6144) masked with an environmental key of length 2..256 "
         "(each length drawn uniformly; aperiodic or periodic), every non-empty subset of the four guard options, protected "
         "area at offset 0..3000 in random filler, raw or inside a XorEncoded PE; 35% of runs inject 1-2 storage faults "
@@ -63,9 +63,11 @@ def generate(rng, tier, index):
         # large configurations: the zero padding then lies mostly beyond offset 4096 of the patch area
         size = len(builder.encode_settings(settings, pad_to=None))
         idx = 400
-        while size < rng.choice([2200, 3000, 3800]):
+        hi = rng.random() < 0.35      # high byte values throughout: the weighted checksum comes close to its maximum
+        target = rng.choice([3500, 3800, 3900]) if hi else rng.choice([2200, 3000, 3800])
+        while size < target:
             ln = rng.randint(200, 700)
-            settings.append([idx, "ptr", hx(bytes(rng.getrandbits(8) | 1 for _ in range(ln)))])
+            settings.append([idx, "ptr", hx(bytes((rng.randint(0xF8, 0xFF) if hi else rng.getrandbits(8) | 1) for _ in range(ln)))])
             size += 6 + ln
             idx += 1
     container = rng.choice(["raw", "raw", "xorpe"])
@@ -76,7 +78,9 @@ def generate(rng, tier, index):
         # to a multiple of 4096 / 8192: block-wise scanners have to carry it over
         at = max(0, rng.choice([8192, 8192, 12288, 16384]) - 6138 + rng.randint(-14, 8))
     plan = {"container": container, "size": at + rng.choice([0, 0, 50, 700]), "filler": {"kind": "random", "seed": rng.getrandbits(24)},
-            "guards": [{"at": at, "settings": settings, "env_key": hx(key), "guard": guard, "checksum_delta": 0}],
+            "guards": [{"at": at, "settings": settings, "env_key": hx(key), "guard": guard, "checksum_delta": 0,
+                        # the checksum option is usually last; it may sit anywhere after the first guard option
+                        "checksum_pos": None if rng.random() < 0.6 else rng.randint(1, len(guard))}],
             "faults": [], "entry": rng.choice(["from_bytes", "from_bytes", "from_file", "iter"])}
     if at >= 6200 or (rng.random() < 0.25 and not boundary):
         # a stray guard marker (12 bytes satisfying the marker relation) with >= 6144 bytes in front of it, before the real
@@ -115,10 +119,11 @@ def generate(rng, tier, index):
     return plan
 
 
-def _checksum_rel(guard):
+def _checksum_rel(guard, pos=None):
     """offset of the checksum value inside the guard config."""
     off = 0
-    for o, t, _ in guard:
+    n = len(guard) if pos is None else max(1, min(pos, len(guard)))
+    for o, t, _ in guard[:n]:
         off += 6 + (2 if t == "short" else 4)
     return off + 6
 
@@ -139,7 +144,7 @@ def build(plan):
     for f in plan["faults"]:
         rel = f["rel"]
         if f["where"] == "checksum":
-            rel = 6144 + _checksum_rel(plan["guards"][0]["guard"]) + (f["rel"] % 4)
+            rel = 6144 + _checksum_rel(plan["guards"][0]["guard"], plan["guards"][0].get("checksum_pos")) + (f["rel"] % 4)
         if 0 <= base + rel < len(p):
             p[base + rel] ^= f["mask"]
     plain = bytes(p)
@@ -290,6 +295,8 @@ def _stage(plan: dict, res: Result, stage: str) -> Result:
         return True
 
     want_cfg = builder.encode_settings(g["settings"], pad_to=6144)
+    if builder.ref_payload_checksum(want_cfg) > 1_500_000:
+        res.probes["checksum_above_1_5M"] += 1
     want_settings = builder.ref_decode_settings(want_cfg)
     want_guard = [(o, builder.TYPE_CODE[t], 2 if t == "short" else 4,
                    struct.pack(">H" if t == "short" else ">I", v)) for o, t, v in g["guard"]]
@@ -318,7 +325,11 @@ def _stage(plan: dict, res: Result, stage: str) -> Result:
             violate(("C17", "wrong_key", plan["entry"]),
                         f"payload_xor_key {gr.payload_xor_key.hex()[:60]} is not the environmental key {key.hex()[:60]} (mod tiling)")
         got_guard = [(s.option.value, s.type.value, s.length, bytes(s.value)) for s in gr.settings]
-        if got_guard[:-1] != want_guard or got_guard[-1][0] != 9:
+        cp = g.get("checksum_pos")
+        ci = len(want_guard) if cp is None else max(1, min(cp, len(want_guard)))
+        if cp is not None and ci < len(want_guard):
+            res.probes["checksum_option_not_last"] += 1
+        if got_guard[:ci] + got_guard[ci + 1:] != want_guard or len(got_guard) != len(want_guard) + 1 or got_guard[ci][0] != 9:
             violate(("C17", "wrong_guard_settings", plan["entry"]), f"guard settings {got_guard} != {want_guard} + checksum")
         if gr.checksum != builder.ref_payload_checksum(want_cfg) + 1:
             violate(("C17", "wrong_checksum", plan["entry"]), f"checksum {gr.checksum:#x} reported")
